@@ -146,6 +146,22 @@ CHECKS['C12'] = dict(
               'differential correspondence + property oracle',
     design='C12')
 
+CHECKS['C15'] = dict(
+    text='Theorems: C15_no_forgotten_route (for EVERY row of coq/Gen/RoutesTable.v - regenerated from the live application object on '
+         'every run: URL rule x HTTP method, guards read from the decorator closures - and EVERY role, a state-changing method whose '
+         'guards admit the role is one the role is entitled to; finite, by vm_compute over the generated table, fail-closed on '
+         'unknown decorators/handlers), C15_csrf_once (a token string is accepted at most once over any sequence of checks, any MAC), '
+         'C15_csrf_signature and C15_csrf_binding (an accepted token was issued for that cookie and that service, given an injective '
+         'MAC and the suffix-free list of service names extracted from the source). Tied to /repo by the translator itself, by an '
+         'HTTP sweep of every route x method x lesser role with harvested tokens (state fingerprint before/after, which also '
+         'validates the state-changing bit) and by differential CSRF sequences on the real CsrfProtection.',
+    note=TB + 'PARTIAL: authorisation decided INSIDE a method body (EditUser.post: self or admin) is outside the table theorem and is '
+         'decided by the HTTP sweep; flask-login is replaced by a shim (session user id), flask-jwt-extended is the real library; '
+         'HMAC-SHA1 injectivity is assumed; the role required per handler class is a hand table from docs/users.md.',
+    technique='Coq proof (finite table by vm_compute regenerated from source; induction over check sequences; list-suffix argument) + '
+              'exhaustive HTTP sweep with state fingerprints + differential CSRF sequences',
+    design='C15')
+
 NOT_YET = {
 }
 
